@@ -632,7 +632,7 @@ func TestC16Binary(t *testing.T) {
 				ws.Close()
 				ws2, _, derr := websocket.DefaultDialer.Dial("ws://"+p.addr+"/", nil)
 				if derr != nil {
-					rt.Fatalf("[setup failed] dial: %v", derr)
+					rt.Fatalf("%s", p.dialFailure(derr))
 				}
 				ws = ws2
 				b, err = wsCall(body)
